@@ -95,6 +95,17 @@ pub struct HdrSpec {
     /// optional header hashes that are absent: bit 0 last_commit_hash, bit 1
     /// last_results_hash, bit 2 evidence_hash
     pub absent: u8,
+    /// proposer priorities of the validators: 0 = all zero, 1 = mixed signs around zero,
+    /// 2 = extremes (i64::MIN / i64::MAX alternating)
+    #[serde(default)]
+    pub prio: u8,
+    /// length of the application hash (CometBFT allows any; 32 is usual, 0 at genesis)
+    #[serde(default = "default_app_hash_len")]
+    pub app_hash_len: usize,
+}
+
+fn default_app_hash_len() -> usize {
+    32
 }
 
 impl HdrSpec {
@@ -110,12 +121,14 @@ impl HdrSpec {
             round: 0,
             dah: DahSpec::Synthetic(2),
             absent: 0,
+            prio: 0,
+            app_hash_len: 32,
         }
     }
     pub fn id(&self) -> String {
         format!(
-            "hdr/{}/h{}/t{}.{}/app{}/vals{:?}/votes{:?}/r{}/{:?}/abs{}",
-            self.chain_id, self.height, self.secs, self.nanos, self.app, self.vals, self.votes, self.round, self.dah, self.absent
+            "hdr/{}/h{}/t{}.{}/app{}/vals{:?}/votes{:?}/r{}/{:?}/abs{}/prio{}/apphash{}",
+            self.chain_id, self.height, self.secs, self.nanos, self.app, self.vals, self.votes, self.round, self.dah, self.absent, self.prio, self.app_hash_len
         )
     }
 }
@@ -149,7 +162,29 @@ pub fn build_header(seed: u64, s: &HdrSpec) -> ExtendedHeader {
         b.eh.dah = synthetic_dah(seed, w);
         chain::link(&mut b.eh);
     }
-    if s.absent != 0 || build_height != s.height || wide {
+    if s.prio != 0 {
+        // proposer priorities are not part of the validator-set hash: no re-sealing needed
+        let pr = |i: usize| -> i64 {
+            match (s.prio, i % 2) {
+                (1, 0) => -1500 + 1000 * i as i64,
+                (1, _) => 1500 - 1000 * i as i64,
+                (_, 0) => i64::MIN,
+                _ => i64::MAX,
+            }
+        };
+        let proposer_addr = b.eh.validator_set.proposer.as_ref().map(|p| p.address);
+        for (i, v) in b.eh.validator_set.validators.iter_mut().enumerate() {
+            v.proposer_priority = pr(i).into();
+            if Some(v.address) == proposer_addr {
+                b.eh.validator_set.proposer = Some(v.clone());
+            }
+        }
+    }
+    let other_app_hash = s.app_hash_len != 32;
+    if other_app_hash {
+        b.eh.header.app_hash = Fill::new(seed, 0xA99).bytes(s.app_hash_len).try_into().expect("app hash");
+    }
+    if s.absent != 0 || build_height != s.height || wide || other_app_hash {
         b.eh.header.height = s.height.try_into().expect("height fits i64");
         if s.absent & 1 != 0 {
             b.eh.header.last_commit_hash = None;
@@ -235,6 +270,14 @@ pub fn header_specs(deep: bool) -> Vec<HdrSpec> {
     for absent in 1..8u8 {
         out.push(HdrSpec { absent, height: 2, ..base.clone() });
     }
+    for prio in [1u8, 2] {
+        out.push(HdrSpec { prio, ..base.clone() });
+        out.push(HdrSpec { prio, vals: four.clone(), ..base.clone() });
+        out.push(HdrSpec { prio, vals: seven.clone(), votes: vec![(3, VoteKind::Absent)], ..base.clone() });
+    }
+    for app_hash_len in [0usize, 1, 20, 48] {
+        out.push(HdrSpec { app_hash_len, height: 2, ..base.clone() });
+    }
     out.push(HdrSpec { dah: DahSpec::Synthetic(256), app: 3, height: 9, ..base.clone() });
     out.push(HdrSpec { dah: DahSpec::Synthetic(1024), app: 6, height: 10, ..base.clone() });
     if deep {
@@ -264,6 +307,8 @@ pub fn header_specs(deep: bool) -> Vec<HdrSpec> {
                                         round,
                                         dah,
                                         absent,
+                                        prio: if round == 0 { absent & 1 } else { 2 - (absent & 1) },
+                                        app_hash_len: if absent == 0 { 32 } else { 20 },
                                     });
                                 }
                             }
@@ -453,6 +498,7 @@ pub struct BefpSpec {
 }
 
 pub fn befp_specs(w: usize) -> Vec<BefpSpec> {
+    assert!(w <= 64, "presence masks are 64 bits wide");
     let all = if w >= 64 { u64::MAX } else { (1u64 << w) - 1 };
     let evens = 0x5555_5555_5555_5555u64 & all;
     let low_half = (1u64 << (w / 2)) - 1;
